@@ -366,6 +366,10 @@ fn dec_json(t: &mut Cur<'_>) -> serde_json::Value {
     }
 }
 
+pub fn parse_json_value_str(s: &str) -> serde_json::Value {
+    parse_json_value(s)
+}
+
 fn parse_json_value(s: &str) -> serde_json::Value {
     let mut c = Cur::new(s);
     let v = dec_json(&mut c);
